@@ -147,23 +147,26 @@ package relationtuple
 // write operations of the manager (ASSUMED): they may change the database; wfailed records
 // that one of them returned an error during the current request
 //@ ghostvar wfailed bool
+// looseWrites: write calls on the relationship manager made so far by the function under proof itself
+// (a callback handed to Transaction is a function of its own: its writes are the transaction's)
+//@ ghostvar looseWrites int
 //@ func Manager.WriteRelationTuples
 //@   trusted
-//@   modifies db, wfailed
-//@   ensures wfailed == (old(wfailed) || result != nil)
+//@   modifies db, wfailed, looseWrites
+//@   ensures wfailed == (old(wfailed) || result != nil) && looseWrites == old(looseWrites) + 1
 //@ func Manager.DeleteRelationTuples
 //@   trusted
-//@   modifies db, wfailed
-//@   ensures wfailed == (old(wfailed) || result != nil)
+//@   modifies db, wfailed, looseWrites
+//@   ensures wfailed == (old(wfailed) || result != nil) && looseWrites == old(looseWrites) + 1
 //@ func Manager.DeleteAllRelationTuples
 //@   trusted
 //@   requires query != nil
-//@   modifies db, wfailed
-//@   ensures wfailed == (old(wfailed) || result != nil)
+//@   modifies db, wfailed, looseWrites
+//@   ensures wfailed == (old(wfailed) || result != nil) && looseWrites == old(looseWrites) + 1
 //@ func Manager.TransactRelationTuples
 //@   trusted
-//@   modifies db, wfailed
-//@   ensures wfailed == (old(wfailed) || result != nil)
+//@   modifies db, wfailed, looseWrites
+//@   ensures wfailed == (old(wfailed) || result != nil) && looseWrites == old(looseWrites) + 1
 
 // at most three deferred assignments: apply's loop is unrolled completely (the unwinding
 // assertion "at most 3 iterations" is an obligation)
@@ -285,6 +288,7 @@ package relationtuple
 //@   loop 1 invariant (isnil(filtered) || fresh(filtered))
 
 //@ func (*handler).TransactRelationTuples
+//@   ensures[C05] every-write-is-inside-the-one-transaction: looseWrites == old(looseWrites)
 //@   ensures[C13] client-errors-are-invalid-argument-class: result1 != nil ==> clienterr(result1) || wfailed
 //@   props C04 C05 C13
 //@   requires wfrh(h) && ctx != nil && req != nil
@@ -327,6 +331,7 @@ package relationtuple
 //@   loop 1 invariant l != nil
 
 //@ func (*handler).patchRelationTuples
+//@   ensures[C05] every-write-is-inside-the-one-transaction: looseWrites == old(looseWrites)
 //@   callsite Writer.WriteError requires[C13] client-errors-are-4xx: clienterr($arg3) || wfailed
 //@   props C04 C05 C13
 //@   requires wfrh(h) && r != nil && r.URL != nil && w != nil && r.Body != nil
